@@ -35,7 +35,7 @@ def check_entry(e):
 def coef_menu(quick):
     from sympy import Rational, Integer
     ints = [Integer(i) for i in (-3, -2, -1, 1, 2, 3)]
-    rats = [Rational(p, q) for q in (2, 3) for p in ((-1, 1) if quick else (-2, -1, 1, 2)) if p % q]
+    rats = [Rational(p, q) for q in (2, 3) for p in ((-3, -2, -1, 1, 2, 3) if quick else (-5, -4, -3, -2, -1, 1, 2, 3, 4, 5)) if p % q]
     return ints + rats
 
 
